@@ -25,6 +25,36 @@ check("C03", "TLC: laws as ASSUMEs over the full finite domain + table replay + 
       "Trusted: TLC's evaluation of ASSUMEs; the transcription of the README rows in Logic4.ReadmeRows (cross-checked against README.rst "
       "at run time).", "DESIGN.md 3.1, 5/C03")
 
+EVAL_NOTE = ("Trusted: TLC; the renderer (abstract tree -> string with every composite operand bracketed) and the projection of real "
+             "result objects; bounded: expressions up to the stated number of leaves over 2 RC / 1-2 hint / 2-3 FC keys with repetition, "
+             "plus seeded random expressions up to 25 leaves through trace validation.")
+check("C04", "TLC model checking of Eval.tla (stack machine = recursive semantics) + replay of every enumerated program on the real "
+      "evaluator + TLC trace validation of recorded transformer callbacks",
+      "TLC proves within the bound that the callback-level stack machine of Eval.tla equals the documented compositional semantics Den "
+      "for every postfix program (<=3 leaves quick, <=4 replayed and <=5 spec-only thorough) under every RC assignment; every complete "
+      "program enumerated by TLC is rendered, evaluated by the real requirement_constraint_evaluation and compared (error class, "
+      "fulfilled, conditional); every callback of the real RequirementConstraintTransformer on unit-test literals and seeded random "
+      "expressions (<=25 leaves) is validated by TLC against the machine (EvalTrace.tla).", EVAL_NOTE, "DESIGN.md 3.4, 5/C04")
+check("C05", "TLC model checking of the four metamorphic laws on Eval.tla + replay of every (original, transformed) pair on the real evaluator",
+      "The laws (hint and-ed at any admissible position, FC attached to any RC-carrying sub-expression, operand swap, stability of "
+      "definite outcomes under refinement of UNKNOWN) are TLC invariants over every valid expression in the bound at every position; "
+      "each law instance is also executed on the real code (both members of the pair), together with redundant-bracket variants "
+      "(doubled brackets; minimal brackets relying on the documented precedence with mixed operator spellings).", EVAL_NOTE,
+      "DESIGN.md 3.4, 5/C05")
+check("C06", "TLC model checking of ValidityIsStructural on Eval.tla + replay at three entry points (condition evaluation, AHB evaluation "
+      "with one and two parts, is_valid_expression)",
+      "TLC proves within the bound that the machine raises the invalid-expression error iff the tree is structurally invalid (SValid), "
+      "independently of the assignment; every enumerated program is replayed under every assignment through "
+      "requirement_constraint_evaluation and evaluate_ahb_expression_tree (as single part and inside two-part AHB expressions) and once "
+      "per tree through is_valid_expression.", EVAL_NOTE, "DESIGN.md 3.4, 5/C06")
+check("C07", "TLC model checking of FcMeaning on Eval.tla + replay (real collected expression parsed by the real parser and evaluated by the "
+      "real format_constraint_evaluation under every truth assignment) + TLC trace validation comparing collected expressions by meaning",
+      "TLC proves within the bound that the collected FC expression of the machine is well-formed, mentions only FC keys of the source and "
+      "has, under every FC truth assignment, the value of the direct reading FcRead; every enumerated program is replayed: the real "
+      "format_constraints_expression must be absent iff the reading is, must parse into U/O/X over FC keys of the source, and "
+      "format_constraint_evaluation of it must give the reading's value under every truth assignment; recorded callbacks on deep random "
+      "expressions are validated by TLC with FC expressions compared by meaning.", EVAL_NOTE, "DESIGN.md 3.4, 5/C07")
+
 NOT_BUILT = "check under construction in this session (specification module planned in DESIGN.md section 3); not claimed yet"
 
 
